@@ -66,6 +66,14 @@ def run_arm_unit(unit, tag, spec_files, arms, default_props, id_prefix=None, ext
                         counts['custom'] += k
                         if expect is not None and k != expect:
                             raise S.SliceError("arm %s: rewrite /%s/ applied %d times, expected %d" % (name, rx, k, expect))
+                    for anchor, ptext in o.get('proof_at', []):
+                        # ghost-only splice after one exact statement of the real text (asserts are CHECKED by Verus, never assumed)
+                        if re.search(r'\b(assume|admit)\s*\(', ptext):
+                            raise S.SliceError("arm %s: proof splice contains assume/admit" % name)
+                        if body.count(anchor) != 1:
+                            raise S.SliceError("arm %s: proof anchor %r found %d times" % (name, anchor, body.count(anchor)))
+                        body = body.replace(anchor, anchor + "\n                proof { %s }" % ptext)
+                        counts['proof_splices'] += 1
                     if o.get('start_proof'):
                         body = "\n                proof { %s }" % o['start_proof'] + body
                         counts['proof_splices'] += 1
@@ -74,6 +82,9 @@ def run_arm_unit(unit, tag, spec_files, arms, default_props, id_prefix=None, ext
                     continue
                 a2 = dict(arm)
                 a2['body'] = body
+                if o.get('extra_params'):
+                    # R8: a local bound by an unsafe pointer dereference becomes a parameter of the lifted arm
+                    a2['sig'] = a2['sig'].replace(') -> bool', ', %s) -> bool' % o['extra_params'])
                 text += "// ---- real arm Instr::%s (vm.rs step), lifted ----\n" % name
                 text += vmenv.lift(a2, o['contract'])
                 meta[name] = dict(contract=o['contract'], sha=S.sha(arm['raw']))
